@@ -1,7 +1,10 @@
 """C12 — parallel regions are race-free; results independent of threads and schedule.   PARTIAL BY NATURE (Props/C12.lean).
 
 proved  : Bernstein's conditions for the footprints of all 20 `omp parallel for` loops (all shapes) + the generic
-          order-independence theorem; parcpy/parSetZero end to end (C17).
+          order-independence theorem; parcpy/parSetZero end to end (C17); the hand model's loop bodies have these footprints
+          (C12_model_*); the GENERATED lifted loop bodies (Gen/NttGen.lean, Gen/MerkleGen.lean, translated on every run)
+          folded over any permutation of the iteration indices give the generated loop's result (C12_generated_*:
+          NTT batches, block scatter, the four bit-reversal loops, parcpy chunks, Merkle leaf + level loops of the six builders).
 tie     : the footprints are hand-written from the loop bodies.  Each run (1) fingerprints every parallel loop of the
           current source (pragma + loop statement text) against the bodies the footprints were written from
           (tools/props/C12_loops.json) and checks that no other OpenMP construct is used; (2) OBSERVES the real accesses:
@@ -104,13 +107,16 @@ def run(tier, seed):
                 "members than iterations) and a runtime granting only 1 or 2 of 5 requested members, 2 order seeds each (thorough 6), every output compared bit for bit with the one-member run; "
                 "(ii) under ThreadSanitizer with the pthread stand-in, teams of 2,3,4; (iii) with real libgomp teams of 2,3,5,16 "
                 "against 1; distinct = distinct (kind, team size, mode)")
-    res.assumptions = ["race freedom of the COMPILED loop bodies is observed (TSan, permuted orders), not proved; the theorems are about the "
-                       "footprints written by hand from the loop bodies whose fingerprints are in tools/props/C12_loops.json",
+    res.assumptions = ["race freedom of the COMPILED loop bodies is observed (TSan, permuted orders), not proved; the footprint theorems are about the "
+                       "footprints written by hand from the loop bodies whose fingerprints are in tools/props/C12_loops.json; the C12_generated_* "
+                       "theorems are about the loop bodies TRANSLATED from the current source (order independence at iteration granularity, "
+                       "side conditions: power-of-two sizes, no 64-bit wrap of index products, object tables represented in the heap)",
                        "order independence is proved at iteration granularity; interleavings of individual accesses follow because every "
                        "location is written by at most one iteration and read by none other (data-race freedom)",
                        "poseidon hash calls inside the Merkle loops use per-iteration stack buffers only (observed by TSan)"]
     st = run_gen()
-    standard_proof_phase(res, MODULE, "C12_", st, [], thorough=(tier == "thorough"))
+    standard_proof_phase(res, MODULE, "C12_", st, ["Scalar", "NttGen", "PosScalar", "PosAvx2", "PosAvx512", "LinearHashGen", "MerkleGen"],
+                         thorough=(tier == "thorough"))
     # ---- (1) the loops the footprints were written from
     fps, other = loop_fingerprints()
     known = json.load(open(LOOPS_FILE))
